@@ -32,7 +32,7 @@ def strategy_(draw, tier):
     n = draw(st.integers(2, 40 if tier == "thorough" else 12))
     d = draw(st.integers(1, 8))
     nt = draw(st.integers(1, 9))
-    off = gen.normal(draw, (d,)) * draw(st.sampled_from([0.0, 1.0, 5.0]))
+    off = gen.normal(draw, (d,)) * draw(st.sampled_from([0.0, 1.0, 5.0, 1e3, 2e4]))
     gs = draw(st.sampled_from([1.0, 1.0, 1e-3, 1e-7, 1e3]))        # kernels of any magnitude
     off = off * gs
     P = gen.normal(draw, (n, d)) * gs + off
@@ -73,7 +73,8 @@ def check(case, ctx):
     if scale < 1e-10 * kmag:
         ctx.skip("centred kernel has (almost) zero trace")
         return
-    tol = 1e-8 * max(1.0, kmag / scale) if wt else 1e-8 * kmag
+    # cancellation in the centred kernel costs eps x |K| / scale: tolerance 1e-10 x that ratio (at least 1e-8)
+    tol = max(1e-8, 1e-10 * kmag / scale) if wt else max(1e-8 * kmag, 1e-10 * kmag)
     K0, Kt0 = K.copy(), Kt.copy()
     with ctx.lib("KernelNormalizer"):
         kn = KN(with_center=wc, with_trace=wt).fit(K, sample_weight=w)
